@@ -32,6 +32,14 @@ def useA2 (tOnMaxUs : Int) : Bool := tOnMaxUs ≤ 500
 
 def codeTable (a2 : Bool) : Table := if a2 then codeA2 else codeA1
 
+/-- `_TABLE_A1` with the bands of TS 102 687 Table A.1 (Active 3 up to 65 %): the repaired variant -/
+def stdA1 : Table := [⟨0, 0, 3000, 10000, 100⟩, ⟨1, 3000, 4000, 5000, 200⟩, ⟨2, 4000, 5000, 2500, 400⟩,
+  ⟨3, 5000, 6500, 2000, 500⟩, ⟨4, 6500, 10100, 1000, 1000⟩]
+
+/-- `_TABLE_A1` as the repository has it (Active 3 / Restrictive edge at 60 %): known finding C19-KF2 -/
+def knownA1 : Table := [⟨0, 0, 3000, 10000, 100⟩, ⟨1, 3000, 4000, 5000, 200⟩, ⟨2, 4000, 5000, 2500, 400⟩,
+  ⟨3, 5000, 6000, 2000, 500⟩, ⟨4, 6000, 10100, 1000, 1000⟩]
+
 /-- `_target_state`: first row (dict order) whose band contains `cbr`, else RESTRICTIVE (4) -/
 def target : Table → Int → Nat
   | [], _ => 4
